@@ -670,6 +670,56 @@ func c10Escapes(c *drv.Ctx) {
 			}
 		}
 	}
+	// where an escape ends: \ooo takes three digits only when the first is 0-3, otherwise
+	// two at most, so a digit behind a complete escape is a character of its own
+	checkSeq := func(spelled string, want []rune, quote string) string {
+		text := "package g\ntype G Peg {}\nR0 <- " + quote + spelled + quote + " !.\n"
+		res := fe.Parse(text, false, false, false)
+		if res.Panic != "" || res.Err != nil {
+			return fmt.Sprintf("%s inside %s%s is not accepted: %v %s", spelled, quote, quote, res.Err, res.Panic)
+		}
+		got, problems := readTree(res.Tree)
+		if len(problems) > 0 || len(got.Rules) != 1 {
+			return fmt.Sprintf("%s: inconsistent tree %v", spelled, problems)
+		}
+		if x := refpeg.Run(got, 0, want, 1000); !x.OK {
+			return fmt.Sprintf("%s inside %s%s denotes the %d characters %q (the escape is complete before its last character), but that input is rejected", spelled, quote, quote, len(want), string(want))
+		}
+		return ""
+	}
+	type seq struct {
+		s string
+		r []rune
+	}
+	var seqs []seq
+	for r := rune(0); r <= 0o377; r++ {
+		for _, d := range "0789" {
+			seqs = append(seqs, seq{fmt.Sprintf(`\%03o%c`, r, d), []rune{r, d}})
+		}
+	}
+	for r := rune(0o40); r <= 0o77; r++ {
+		for _, d := range "0789" {
+			seqs = append(seqs, seq{fmt.Sprintf(`\%02o%c`, r, d), []rune{r, d}})
+		}
+	}
+	for r := rune(0); r <= 7; r++ {
+		for _, d := range "89" {
+			seqs = append(seqs, seq{fmt.Sprintf(`\%o%c`, r, d), []rune{r, d}})
+		}
+	}
+	for _, e := range seqs {
+		for _, q := range []string{"'", "\""} {
+			c.Stats.Eval()
+			if c.Stats.Nontrivial(drv.Hash("escape-end", e.s, q)) {
+				c.Stats.Class("nt_end_of_octal_escape_checked")
+			}
+			if what := checkSeq(e.s, e.r, q); what != "" && len(c.Violations) == 0 {
+				cs := &synCase{Text: "package g\ntype G Peg {}\nR0 <- " + q + e.s + q + " !.\n", G: &gram.Grammar{Package: "g", Struct: "G", Rules: []*gram.Rule{{Name: "R0", Body: gram.Seq(&gram.Expr{K: gram.KLit, Runes: e.r, CI: q == "\""}, gram.Un(gram.KNot, &gram.Expr{K: gram.KDot}))}}},
+					Inputs: []string{string(e.r)}}
+				c.AddViolation(drv.Violation{Property: "C10", Kind: "syntax-text", What: what, Case: cs})
+			}
+		}
+	}
 	c.Stats.Extra["escape_table_exhaustive"] = true
 }
 
